@@ -551,7 +551,7 @@ def run_property(prop):
     rep = Report(prop)
     findings = load_findings()
     proof_ok, pinfo = coqcheck.proof_status(prop)
-    n = (5000 if thorough else 400)
+    n = (30000 if thorough else 400)
     results = []
     if pinfo.get('build_ok'):
         nproc = min(16, os.cpu_count() or 4)
@@ -601,7 +601,7 @@ def run_property(prop):
                           no_input=True)
     # ---- C17: the same keys in interpreter sessions with different hash seeds
     if prop == 'C17' and pinfo.get('build_ok'):
-        ncase = 400 if thorough else 60
+        ncase = 1500 if thorough else 60
         seeds_ = [0, 1, 2, 12345] if thorough else [0, 7]
         try:
             base = session_keys(sd, 0, ncase, seeds_[0])
